@@ -142,7 +142,7 @@ def special_of(path):
 
 
 def parse_ipv4(s):
-    m = re.match(r"^([0-9]{1,3})\.([0-9]{1,3})\.([0-9]{1,3})\.([0-9]{1,3})(?:/([0-9]{1,2}))?$", s)
+    m = re.match(r"^([0-9]{1,3})\.([0-9]{1,3})\.([0-9]{1,3})\.([0-9]{1,3})(?:/([0-9]{1,2}))?\Z", s)
     if not m:
         return None
     parts = [int(x) for x in m.group(1, 2, 3, 4)]
@@ -157,7 +157,7 @@ def parse_ipv4(s):
 
 
 def parse_ipv6(s):
-    m = re.match(r"^([0-9A-Fa-f:]+)(?:/([0-9]{1,3}))?$", s)
+    m = re.match(r"^([0-9A-Fa-f:]+)(?:/([0-9]{1,3}))?\Z", s)
     if not m:
         return None
     body = m.group(1)
